@@ -5,6 +5,7 @@
 
 ENGINES = {
     "H1": {"name": "pipe-sim", "pkg": "./bfe_util/pipe", "desc": "real bfe_util/pipe (mutex+cond) with writer/reader/closer/breaker tasks under the lock/cond-granular scheduler; porcupine linearizability against a bounded-FIFO model"},
+    "H2": {"name": "prison-sim", "pkg": "./bfe_modules/mod_prison", "desc": "real mod_prison handler, rule table, rule-file loader and LRU dictionaries driven by timed request histories on the simulated clock"},
     "A": {"name": "balancer-sim", "pkg": "./bfe_balance", "desc": "real bal_table/bal_gslb/bal_slb/backend under the lock-granular scheduler, fake clock, configs through the real file loaders"},
 }
 
@@ -50,6 +51,12 @@ PROPS["C21"] = dict(engine="H1", runs=(20000, 600000), modes=[("nofault", 0.25),
     level_text="Seeded search over mutex/cond-granular interleavings of a writer, a reader, a closer and an optional breaker on the real Pipe (buffer sizes 1-64, write sizes 0-80, read buffers 1-40). Oracles: stream invariants (bytes read are a prefix of bytes accepted, exactly once, in order; close only after drain; break immediate for reads invoked after it returned; n<len only with an error), lost-wake-up/deadlock detection, and porcupine linearizability of every recorded history against a sequential bounded-FIFO model; a -race variant.",
     level_note="Trusted: simrt/simsync (Cond is implemented on the scheduler, FIFO wake-up like sync.Cond), porcupine v1.3.0, the 60-line sequential model. One reader, one writer (the way HTTP/2 and SPDY use the pipe).",
     technique="deterministic simulation: seeded lock/cond-granular schedule search, stream invariants + porcupine linearizability vs a sequential model, race detector under controlled schedules")
+
+PROPS["C53"] = dict(engine="H2", runs=(20000, 600000), modes=[("nofault", 0.25), ("swarm", 0.75)], race=False,
+    level="exploration", design="§6 Engine H / C53",
+    level_text="Seeded timed request histories (1-3 keys, 5-60 requests, gaps from 0 to several periods incl. exact window/jail boundary instants, rule reloads in between) on the simulator's fake clock through the real module handler, rule table and rule-file loader; every verdict is compared with a small fixed-window reference model that keeps a set of admissible states where a request falls exactly on a boundary instant.",
+    level_note="Trusted: simrt fake clock (synctest), the reference model (fixed window opened by the first request after the previous one expired; > Threshold in a window jails until window end + StayPeriod). Sequential per the property's quantifier (histories, inputs); dictionaries sized so that LRU eviction is not in play.",
+    technique="deterministic simulation: seeded timed histories on a simulated clock vs an executable reference model (state-set refinement at boundary instants)")
 
 NOT_APPLICABLE = {
     "C10": "pure function of (host table, VIP table, Host header): no goroutine, clock, stream, file or peer takes part; the only thing to vary is input, which is generation, not simulation (DESIGN §7)",
